@@ -39,6 +39,12 @@ def shards(tier):
 
 
 def strategy(tier):
+    # (opcode-level landings for thread workers: the tracer supports granularity='opcode', but CPython 3.12.1 does not deliver
+    # 'opcode' events to frames of non-main threads reliably - probed, see DESIGN.md 6 - so both tiers stay at line granularity)
+    return _line_strategy()
+
+
+def _line_strategy():
     one = st.fixed_dictionaries({
         'kind': st.sampled_from(IC.ONE_SHOT), 'scenario': st.sampled_from(['loop_finally', 'loop_finally', 'spin_finally', 'spin_finally', 'quick_return', 'raise_own']),
         'rounds': st.sampled_from([3, 6, 12]),
@@ -117,7 +123,7 @@ def run_case(case, ctx):
     reached = obs.get('reached')
     region = IC.region_of(reached) if inj['mode'] == 'terminate' else 'idle:' + kind
     site = region
-    out.label('kind:' + kind, 'scenario:' + case['scenario'])
+    out.label('kind:' + kind, 'scenario:' + case['scenario'], 'granularity:' + inj.get('granularity', 'line'))
     in_try_body = in_target = False
     if reached:
         parts = region.split(':')[-1].split('>')
